@@ -11,7 +11,8 @@ RULE = ("Hypothesis draws an LTPage built directly from 0-60 LTChar (real constr
         "negative and off-page up to +-2^20, sizes incl. 0 and sub-unit, rotated/reflected matrices, horizontal and "
         "vertical glyphs, text from letters, blanks, empty string, NBSP; arranged as free glyphs and as runs/lines/"
         "columns so that lines, multi-line boxes and groups arise; plus LTRect/LTLine/LTCurve/LTImage items and "
-        "LTFigures containing chars; LAParams from {0, tiny, typical, 1e3} margins, boxes_flow in [-1,1] or None, "
+        "LTFigures containing chars; also pages that the interpreter produces from generated documents (text in a "
+        "horizontal and a vertical font, shapes, images, nested forms), analysed vs unanalysed; LAParams from {0, tiny, typical, 1e3} margins, boxes_flow in [-1,1] or None, "
         "detect_vertical, all_texts.  Oracle (validity predicate after analyze): every input leaf occurs exactly once; "
         "bbox of every line/box/group == exact union of its members; lines are of one class matching their box, end "
         "in exactly one LTAnno('\\n'), consecutive glyphs of a horizontal (vertical) line overlap vertically "
@@ -338,10 +339,131 @@ def cases(draw):
     return {"items": items, "la": la, "bbox": bbox}
 
 
+# ---------------------------------------------------------------------------------------------- document path
+def _leafsig(o):
+    from pdfminer.layout import LTChar
+
+    if isinstance(o, LTChar):
+        return ("char", o.get_text(), tuple(o.bbox), o.fontname)
+    return (type(o).__name__, tuple(o.bbox))
+
+
+def _flat(cont, acc):
+    from pdfminer.layout import LTAnno, LTContainer, LTFigure
+
+    for c in cont:
+        if isinstance(c, LTAnno):
+            continue
+        if isinstance(c, LTFigure):
+            acc.append(_leafsig(c))
+            _flat(c, acc)
+        elif isinstance(c, LTContainer):
+            _flat(c, acc)
+        else:
+            acc.append(_leafsig(c))
+    return acc
+
+
+def _structure(cont, la, path="page"):
+    """The hierarchy invariants of check_container for a tree that came out of the interpreter (inputs unknown:
+    conservation is checked separately against the unanalysed extraction)."""
+    from pdfminer.layout import LTChar, LTFigure, LTTextBox, LTTextLine
+
+    inputs = []
+    for c in cont:
+        if isinstance(c, LTTextBox):
+            for ln in c:
+                inputs.extend(x for x in ln if isinstance(x, LTChar))
+        elif isinstance(c, LTTextLine):
+            inputs.extend(x for x in c if isinstance(x, LTChar))
+        else:
+            inputs.append(c)
+            if isinstance(c, LTFigure):
+                c._verif_inputs = _fig_inputs(c)
+    return check_container(cont, inputs, la, path)
+
+
+def _fig_inputs(fig):
+    from pdfminer.layout import LTChar, LTFigure, LTTextBox, LTTextLine
+
+    out = []
+    for c in fig:
+        if isinstance(c, LTTextBox):
+            for ln in c:
+                out.extend(x for x in ln if isinstance(x, LTChar))
+        elif isinstance(c, LTTextLine):
+            out.extend(x for x in c if isinstance(x, LTChar))
+        else:
+            out.append(c)
+            if isinstance(c, LTFigure):
+                c._verif_inputs = _fig_inputs(c)
+    return out
+
+
+def run_doc_case(case):
+    """Pages produced by the interpreter from a generated document: analysed vs unanalysed extraction."""
+    from collections import Counter
+
+    from props import c11
+    from vlib import interp
+
+    pdf = c11.build_pdf(case["doc"])
+    la = G.mklaparams(case["la"])
+    try:
+        raw = interp.pages(pdf, laparams=None)
+        r, e, _n = METER.run(lambda: interp.pages(pdf, laparams=la), 60_000_000)
+    except Exception as e2:
+        return Outcome(["doc", "raised"], True, fail="extraction raised %s: %s" % (type(e2).__name__, e2))
+    if isinstance(e, WorkBudgetExceeded):
+        return Outcome(["doc", "no-termination"], True, fail="layout analysis of a generated document did not finish; la=%r" % (case["la"],))
+    if e is not None:
+        if not isinstance(e, Exception):
+            raise e
+        return Outcome(["doc", "raised"], True, fail="extraction with layout analysis raised %s: %s; la=%r" % (type(e).__name__, e, case["la"]))
+    classes = ["doc"]
+    nt = False
+    for pno, (p0, p1) in enumerate(zip(raw, r)):
+        a, b = Counter(_flat(p0, [])), Counter(_flat(p1, []))
+        if a != b:
+            lost = list((a - b).elements())[:3]
+            extra = list((b - a).elements())[:3]
+            return Outcome(classes, True, fail="page %d: analysis does not conserve the items of the unanalysed page: lost %r, "
+                           "extra %r; la=%r" % (pno, lost, extra, case["la"]))
+        err, stats = _structure(p1, la, "page%d" % pno)
+        if err:
+            return Outcome(classes, True, fail="%s; la=%r (generated document)" % (err, case["la"]))
+        if stats["multiline"] or stats["boxes"] >= 2:
+            nt = True
+    return Outcome(classes, nt, sample={"la": case["la"], "pages": len(raw)})
+
+
+@st.composite
+def doc_cases(draw):
+    from props import c11
+
+    d = draw(c11.cases())
+    m = st.sampled_from([0.1, 0.25, 0.5, 1.0, 2.0])
+    la = {"line_overlap": draw(st.sampled_from([0.25, 0.5, 0.9])), "char_margin": draw(m), "line_margin": draw(m),
+          "word_margin": draw(m), "boxes_flow": draw(st.sampled_from([None, -1.0, 0.0, 0.5, 1.0])),
+          "detect_vertical": draw(st.booleans()), "all_texts": draw(st.booleans())}
+    return {"kind": "doc", "doc": d, "la": la}
+
+
+_run_direct = run_case
+
+
+def run_case(case):  # noqa: F811
+    if case.get("kind") == "doc":
+        return run_doc_case(case)
+    return _run_direct(case)
+
+
 def plan(tier):
     q = tier == "quick"
-    return [{"n": 200 if q else 5000} for _ in range(16)]
+    return [{"n": 200 if q else 5000} for _ in range(16)] + [{"kind": "doc", "n": 120 if q else 2500} for _ in range(8)]
 
 
 def run_shard(spec, ctx):
+    if spec.get("kind") == "doc":
+        return hyp_search(ctx, doc_cases(), run_case, spec["n"])
     return hyp_search(ctx, cases(), run_case, spec["n"])
